@@ -86,8 +86,8 @@ def imaging(
         mod = mod * np.exp(1j * phase * np.pi / 180)
 
     # DFT
-    kdim = pos.shape[-1]
-    kpos = xp.einsum("...ni,...i->...n", k[..., :kdim], pos)
+    kdim = min(pos.shape[-1], k.shape[-1])  # extra position components have no wavenumber
+    kpos = xp.einsum("...ni,...i->...n", k[..., :kdim], pos[..., :kdim])
     im = (voxel * mod * F) * xp.exp(1j * kpos)
 
     # weights
